@@ -105,8 +105,49 @@ func c20Muts(ops []*c20Op) []*c20Item {
 	return its
 }
 
+// c20RandWraps turns some registrations into user types built on ServeMux / ServeAsync by embedding
+// (or, as a control, by a named field), at varied positions among the ordinary handlers.
+func c20RandWraps(r *rand.Rand, regs [][]c20Reg) ([][]c20Reg, map[int]c20Wrap) {
+	wraps := map[int]c20Wrap{}
+	if r.Intn(5) < 2 {
+		return regs, wraps
+	}
+	hid := 0
+	for _, rs := range regs {
+		hid += len(rs)
+	}
+	byValue := map[int]bool{}
+	n := 1 + r.Intn(3)
+	for k := 0; k < n; k++ {
+		i := r.Intn(len(regs))
+		var w c20Wrap
+		if i+1 < len(regs) && r.Intn(3) > 0 {
+			w = c20Wrap{Kind: []string{"embedmux", "embedmuxptr", "fieldmux"}[r.Intn(3)], Inner: i + 1 + r.Intn(len(regs)-i-1)}
+			if w.Kind == "embedmux" {
+				if byValue[w.Inner] {
+					w.Kind = "embedmuxptr"
+				}
+				byValue[w.Inner] = true
+			}
+		} else {
+			w = c20Wrap{Kind: []string{"embedasync", "embedasyncptr"}[r.Intn(2)], Inner: r.Intn(2)}
+		}
+		f := []string{"#", "a/#", "+/+", "a/+", "+/b"}[r.Intn(5)]
+		pos := r.Intn(len(regs[i]) + 1)
+		if r.Intn(3) == 0 {
+			pos = 0
+		}
+		rs := append([]c20Reg{}, regs[i][:pos]...)
+		rs = append(rs, c20Reg{f, hid})
+		regs[i] = append(rs, regs[i][pos:]...)
+		wraps[hid] = w
+		hid++
+	}
+	return regs, wraps
+}
+
 func c20RandRegs(r *rand.Rand) [][]c20Reg {
-	nm := 1 + r.Intn(2)
+	nm := 1 + r.Intn(3)
 	regs := make([][]c20Reg, nm)
 	hid := 0
 	for i := range regs {
@@ -125,6 +166,7 @@ func c20RandRegs(r *rand.Rand) [][]c20Reg {
 
 // a random schedule, decided online from what the implementation did so far
 func c20Random(r *rand.Rand, x *c20Exec, maxSteps int) {
+	x.preroll(64 + r.Intn(8))
 	x.doNew(c20RandContent(r), r.Intn(4), r.Intn(4) == 0)
 	callers, asyncs := 1, 0
 	for len(x.steps) < maxSteps && !x.aborted {
@@ -146,7 +188,17 @@ func c20Random(r *rand.Rand, x *c20Exec, maxSteps int) {
 				pend = append(pend, a)
 			}
 		}
-		switch k := r.Intn(20); {
+		var rets []*c20Agent
+		for _, a := range x.agents {
+			if x.canReturn(a) {
+				rets = append(rets, a)
+			}
+		}
+		switch k := r.Intn(24); {
+		case k >= 20 && len(rets) > 0:
+			x.doReturn(rets[r.Intn(len(rets))])
+		case k >= 20 && len(pend) > 0:
+			x.doRun(pend[r.Intn(len(pend))])
 		case k < 1 && callers < 3:
 			x.doNew(c20RandContent(r), r.Intn(4), false)
 			callers++
@@ -160,11 +212,36 @@ func c20Random(r *rand.Rand, x *c20Exec, maxSteps int) {
 				a = actors[len(actors)-1-r.Intn((len(actors)+1)/2)]
 			}
 			var items []*c20Item
+			if a.wrap != nil && a.live && !a.acted && r.Intn(4) > 0 {
+				// a wrapper's overriding Serve: edit what it received (strip a prefix, decode in place,
+				// clear a flag), then call the Serve of what it embeds
+				a.acted = true
+				ops := []*c20Op{{Kind: "topic", S: c20Topics[r.Intn(len(c20Topics))]}, {Kind: "retain", B: !a.ptr.Retain}}
+				for i := range a.ptr.Payload {
+					ops = append(ops, &c20Op{Kind: "write", I: i, V: a.ptr.Payload[i] ^ 0x5A})
+				}
+				if r.Intn(2) == 0 {
+					ops = append(ops, c20RandOp(r, a.ptr)...)
+				}
+				items = c20Muts(ops)
+				if d := x.delegateItem(a); d != nil {
+					if d.kind == "async" {
+						asyncs++
+					}
+					items = append(items, d)
+				}
+				x.doBurst(a, items)
+				continue
+			}
 			if r.Intn(2) == 0 {
 				items = append(items, c20Muts(c20RandOp(r, a.ptr))...)
 			}
-			if asyncs < 5 && r.Intn(3) == 0 {
-				items = append(items, &c20Item{kind: "async", hid: 100 + asyncs})
+			if asyncs < 6 && r.Intn(3) == 0 {
+				it := &c20Item{kind: "async", hid: 100 + asyncs}
+				if j := r.Intn(2); r.Intn(2) == 0 && x.canShared(j) {
+					it.shared, it.hid = j+1, 200+j // a long-lived ServeAsync value, used for several dispatches
+				}
+				items = append(items, it)
 				asyncs++
 				// the dispatcher goes on mutating its message right after Serve returned
 				if r.Intn(4) > 0 {
@@ -278,6 +355,106 @@ var c20Scripts = []struct {
 			x.doBurst(c20Agt(x, 6), c20Muts(c20Scribble(c20Agt(x, 6).ptrOr(), "zzz")))
 			x.doNext(c20Frm(x, 2))
 		}},
+}
+
+func init() {
+	c20Scripts = append(c20Scripts, struct {
+		name string
+		regs [][]c20Reg
+		run  func(x *c20Exec)
+	}{"copy outlives the handler: asynchronous handlers return and keep their pointers; later messages pass through the same and another ServeAsync and a ServeMux; retained holders re-read and re-write; a further message is dispatched and its handler enters after that",
+		[][]c20Reg{{{"#", 0}, {"t/+", 1}}},
+		func(x *c20Exec) {
+			caller := func(i int, items ...*c20Item) {
+				ops := []*c20Op{{Kind: "topic", S: fmt.Sprintf("t/%d", i)}, {Kind: "id", N: 100 + i}, {Kind: "qos", N: i % 3},
+					{Kind: "retain", B: i%2 == 0}, {Kind: "dup", B: i%2 == 1}, {Kind: "write", I: 0, V: byte(0x10 * i)}, {Kind: "write", I: 2, V: byte(i)}}
+				x.doBurst(c20Agt(x, 0), append(c20Muts(ops), items...))
+			}
+			x.doNew(c20Content{Topic: "t/0", ID: 100, QoS: 1, Retain: true, Payload: []byte{1, 2, 3}}, 1, false)
+			caller(1, &c20Item{kind: "async", hid: 200, shared: 1}) // agent1
+			x.doRun(c20Agt(x, 1))
+			x.doBurst(c20Agt(x, 1), c20Muts([]*c20Op{{Kind: "write", I: 1, V: 0xB1}, {Kind: "dup", B: false}}))
+			x.doReturn(c20Agt(x, 1))                                 // keeps the pointer
+			caller(2, &c20Item{kind: "async", hid: 200, shared: 1}) // agent2: same ServeAsync value
+			x.doRun(c20Agt(x, 2))
+			x.doBurst(c20Agt(x, 2), c20Muts([]*c20Op{{Kind: "append", Bs: []byte{0xC2}}, {Kind: "topic", S: "kept/2"}}))
+			x.doReturn(c20Agt(x, 2))
+			caller(3, &c20Item{kind: "async", hid: 201, shared: 2}) // agent3: another long-lived value
+			x.doRun(c20Agt(x, 3))
+			caller(4, &c20Item{kind: "async", hid: 100}) // agent4: a fresh value, not run yet
+			x.doBurst(c20Agt(x, 1), c20Muts(c20Scribble(c20Agt(x, 1).ptrOr(), "kept/1"))) // retained holder re-writes
+			x.doRun(c20Agt(x, 4))
+			x.doReturn(c20Agt(x, 3))
+			x.doReturn(c20Agt(x, 4))
+			caller(5, &c20Item{kind: "mux", mi: 0}) // agent5 = h0 (a ServeMux in between)
+			x.doNext(c20Frm(x, 0))                  // agent6 = h1
+			x.doNext(c20Frm(x, 0))
+			caller(6, &c20Item{kind: "async", hid: 200, shared: 1}) // agent7: a further message, not run yet
+			for _, k := range []int{1, 2, 3, 4, 5} {              // every retained holder re-reads (snapshot) and re-writes
+				x.doBurst(c20Agt(x, k), c20Muts([]*c20Op{{Kind: "topic", S: fmt.Sprintf("late/%d", k)}, {Kind: "write", I: 0, V: byte(0xF0 + k)}, {Kind: "id", N: k}, {Kind: "append", Bs: []byte{byte(k)}}}))
+			}
+			x.doRun(c20Agt(x, 7))
+			x.doReturn(c20Agt(x, 7))
+			caller(7, &c20Item{kind: "async", hid: 201, shared: 2}) // agent8
+			x.doBurst(c20Agt(x, 7), c20Muts(c20Scribble(c20Agt(x, 7).ptrOr(), "late/7")))
+			x.doRun(c20Agt(x, 8))
+		}})
+}
+
+// scenarios with user types built on ServeMux / ServeAsync registered among ordinary handlers.
+// Policy: every handler scribbles over what it received once; a wrapper edits topic, payload and
+// flags and then calls the Serve of what it embeds; then it returns and the loop goes on.
+var c20WrapScripts = []struct {
+	name  string
+	regs  [][]c20Reg
+	wraps map[int]c20Wrap
+	msg   c20Content
+}{
+	{"sub-router embedding ServeMux (value) in the middle, decoder embedding ServeAsync (value) first, named-field control last",
+		[][]c20Reg{{{"#", 0}, {"a/#", 1}, {"a/#", 2}, {"a/+", 3}, {"x/y", 4}, {"#", 5}, {"#", 6}}, {{"#", 7}, {"b", 8}}, {{"#", 9}}},
+		map[int]c20Wrap{0: {"embedasync", 0}, 2: {"embedmux", 1}, 6: {"fieldmux", 2}},
+		c20Content{Topic: "a/b", ID: 0x1234, QoS: 1, Retain: true, Dup: true, Payload: []byte{1, 2, 3}}},
+	{"pointer embedding: *ServeMux wrapper first, *ServeAsync wrapper in the middle, ServeMux (value) wrapper last",
+		[][]c20Reg{{{"+/+", 0}, {"a/b", 1}, {"#", 2}, {"a/+", 3}, {"#", 4}}, {{"#", 5}}, {{"a/#", 6}, {"#", 7}}},
+		map[int]c20Wrap{0: {"embedmuxptr", 1}, 2: {"embedasyncptr", 1}, 4: {"embedmux", 2}},
+		c20Content{Topic: "a/b", ID: 9, QoS: 2, Retain: false, Dup: false, Payload: []byte{0xAA, 0xBB}}},
+}
+
+func c20WrapPolicy(x *c20Exec, msg c20Content) {
+	x.doNew(msg, 2, false)
+	x.doBurst(c20Agt(x, 0), []*c20Item{{kind: "mux", mi: 0}})
+	for !x.aborted {
+		var fr *c20Frame
+		for i := len(x.frames) - 1; i >= 0; i-- {
+			if x.canNext(x.frames[i]) {
+				fr = x.frames[i]
+				break
+			}
+		}
+		if fr == nil {
+			break
+		}
+		cur := fr.cur
+		if cur.acted {
+			x.doNext(fr)
+			continue
+		}
+		cur.acted = true
+		if cur.wrap == nil {
+			x.doBurst(cur, c20Muts(c20Scribble(cur.ptr, "scribbled/"+fmt.Sprint(cur.id))))
+			continue
+		}
+		ops := []*c20Op{{Kind: "topic", S: "b"}, {Kind: "retain", B: !cur.ptr.Retain}, {Kind: "dup", B: !cur.ptr.Dup}}
+		for i := range cur.ptr.Payload {
+			ops = append(ops, &c20Op{Kind: "write", I: i, V: cur.ptr.Payload[i] ^ 0x5A})
+		}
+		items := c20Muts(ops)
+		if d := x.delegateItem(cur); d != nil {
+			items = append(items, d)
+		}
+		x.doBurst(cur, items)
+	}
+	x.doBurst(c20Agt(x, 0), c20Muts([]*c20Op{{Kind: "append", Bs: []byte{7}}})) // the caller reads and goes on with its message
 }
 
 func (a *c20Agent) ptrOr() *mqtt.Message {
@@ -490,7 +667,7 @@ func runC20(cfg *runCfg) error {
 	for _, p := range []int{1, procs} {
 		runtime.GOMAXPROCS(p)
 		for _, sc := range c20Scripts {
-			x, err := newC20Exec(sc.regs)
+			x, err := newC20Exec(sc.regs, nil)
 			if err != nil {
 				return err
 			}
@@ -498,11 +675,20 @@ func runC20(cfg *runCfg) error {
 			x.drain(func(n int) int { return 0 })
 			finishCase(x, sc.name)
 		}
+		for _, sc := range c20WrapScripts {
+			x, err := newC20Exec(sc.regs, sc.wraps)
+			if err != nil {
+				return err
+			}
+			c20WrapPolicy(x, sc.msg)
+			x.drain(func(n int) int { return 0 })
+			finishCase(x, sc.name)
+		}
 	}
 	nRand, maxSteps := 350, 26
 	switch cfg.tier {
 	case "thorough":
-		nRand, maxSteps = 7000, 40
+		nRand, maxSteps = 6000, 40
 	case "search":
 		nRand, maxSteps = 1500, 34
 	}
@@ -512,7 +698,7 @@ func runC20(cfg *runCfg) error {
 		} else {
 			runtime.GOMAXPROCS(procs)
 		}
-		x, err := newC20Exec(c20RandRegs(r))
+		x, err := newC20Exec(c20RandWraps(r, c20RandRegs(r)))
 		if err != nil {
 			return err
 		}
@@ -570,7 +756,7 @@ func runC20(cfg *runCfg) error {
 	m.Distribution["schedule_steps"] = steps
 	m.Distribution["entries_after_a_relevant_mutation"] = nontrivialEntries
 	m.Distribution["nest_cases"] = len(ncases)
-	m.Distribution["scripted_scenarios"] = 2 * len(c20Scripts)
+	m.Distribution["scripted_scenarios"] = 2 * (len(c20Scripts) + len(c20WrapScripts))
 	if err := cf.write(cfg.outDir); err != nil {
 		return err
 	}
